@@ -133,11 +133,15 @@ impl Git {
             envs.push(("HOME", "/does/not/exist"));
             envs.push(("GIT_CONFIG_NOSYSTEM", "1"));
         }
+        #[cfg(gothenburgbitfactory_taskchampion_verif)]
+        crate::server::verif::failpoint(&format!("git:before:{}", args.join(" ")))?;
         let output = Command::new(&self.path)
             .envs(envs)
             .args(args)
             .current_dir(dir)
             .output()?;
+        #[cfg(gothenburgbitfactory_taskchampion_verif)]
+        crate::server::verif::failpoint(&format!("git:after:{}", args.join(" ")))?;
         let stdout = String::from_utf8_lossy(&output.stdout);
         let stderr = String::from_utf8_lossy(&output.stderr);
         if !stdout.is_empty() {
@@ -160,10 +164,14 @@ impl Git {
     /// Run a git command and return its trimmed stdout. Returns an error if the command exits
     /// non-zero. Useful for commands like `git log --format=...` that produce structured output.
     fn output(&self, dir: &Path, args: &[&str]) -> Result<String> {
+        #[cfg(gothenburgbitfactory_taskchampion_verif)]
+        crate::server::verif::failpoint(&format!("git:before:{}", args.join(" ")))?;
         let output = Command::new(&self.path)
             .args(args)
             .current_dir(dir)
             .output()?;
+        #[cfg(gothenburgbitfactory_taskchampion_verif)]
+        crate::server::verif::failpoint(&format!("git:after:{}", args.join(" ")))?;
         let stdout = String::from_utf8_lossy(&output.stdout);
         let stderr = String::from_utf8_lossy(&output.stderr);
         if !stderr.is_empty() {
@@ -328,6 +336,8 @@ impl GitSyncServer {
         let meta_path = self.local_path.join("meta");
         let f = File::create(&meta_path)?;
         serde_json::to_writer(f, &self.meta)?;
+        #[cfg(gothenburgbitfactory_taskchampion_verif)]
+        crate::server::verif::failpoint("git:file:meta-written")?;
         Ok(meta_path)
     }
 
@@ -395,6 +405,8 @@ impl GitSyncServer {
         );
         let path = self.local_path.join(&filename);
         std::fs::write(&path, Vec::<u8>::from(sealed))?;
+        #[cfg(gothenburgbitfactory_taskchampion_verif)]
+        crate::server::verif::failpoint("git:file:version-written")?;
         Ok(path)
     }
 
@@ -723,6 +735,8 @@ impl Server for GitSyncServer {
         let snapshot_path = self.local_path.join("snapshot");
         let f = File::create(&snapshot_path)?;
         serde_json::to_writer(f, &snapshot_file)?;
+        #[cfg(gothenburgbitfactory_taskchampion_verif)]
+        crate::server::verif::failpoint("git:file:snapshot-written")?;
 
         // Commit and push, reverting if push fails.
         self.git
